@@ -3,70 +3,14 @@ import OjgVerif.JPText.LemmasStr
 /-! # C14 lemmas: every fragment kind is read back
 
 `nextFrag`/`afterBracket`/`afterDot` of jp/parse.go applied to the text `Frag.Append` writes for a
-token child (dot form, bare first form, after a descent), a quoted child, an index, a wildcard, a
-slice of any shape, a union of two or more members — followed by whatever may follow a fragment —
+token child (dot form, bare first form, after a descent), a quoted child with ANY key bytes, any index, a
+wildcard, `[..]`, a slice of any shape, a union of two or more members (any member bytes) — followed by whatever may follow a fragment —
 return the fragment (its normal form for slices, `Wildcard('#')` for `[*]`) and the rest. -/
 namespace OjgVerif.JPText
 open OjgVerif
 
-/-! ## `Nth.Append` is `FormatInt` except at the least integer -/
-
-theorem nthDigits_nat (f : Nat) : ∀ (m : Nat) (acc : Bytes), 0 < m → m < 10 ^ f →
-    nthDigits f (m : Int) acc = digits m ++ acc := by
-  induction f with
-  | zero => intro m acc h0 h1; simp at h1; omega
-  | succ f ih =>
-    intro m acc h0 h1
-    have hne : ¬ ((m : Int) = 0) := by omega
-    have hdiv : Int.tdiv (m : Int) 10 = ((m / 10 : Nat) : Int) := by
-      rw [Int.tdiv_eq_ediv_of_nonneg (by omega)]; norm_cast
-    have hmod : Int.tmod (m : Int) 10 = ((m % 10 : Nat) : Int) := by
-      rw [Int.tmod_eq_emod_of_nonneg (by omega)]; norm_cast
-    have hdig : UInt8.ofNat ((Int.tmod (m : Int) 10 + 48) % 256).toNat = digitByte m := by
-      rw [hmod]
-      have h10 : m % 10 < 10 := Nat.mod_lt _ (by decide)
-      have : ((((m % 10 : Nat) : Int) + 48) % 256).toNat = 48 + m % 10 := by omega
-      rw [this]; rfl
-    simp only [nthDigits, hne, ↓reduceIte, hdiv, hdig]
-    by_cases hs : m < 10
-    · have : m / 10 = 0 := by omega
-      rw [this, digits_small m hs]
-      cases f with
-      | zero => simp [nthDigits]
-      | succ f => simp [nthDigits]
-    · have hb : 10 ≤ m := by omega
-      rw [ih (m / 10) _ (by omega) (by
-        have : m < 10 ^ f * 10 := by rw [← Nat.pow_succ]; exact h1
-        exact Nat.div_lt_of_lt_mul (by omega)), digits_big m hb]
-      simp
-
-theorem nthPrint_eq (i : Int) (hi : inInt64 i = true) (hm : i ≠ minInt) : nthPrint i = 91 :: (fmtInt i ++ [93]) := by
-  have hr := (inInt64_iff i).mp hi
-  have hmin : i ≠ -9223372036854775808 := hm
-  by_cases hneg : i < 0
-  · have hw : wrap64 (-i) = -i := by unfold wrap64 two63 two64; omega
-    have hpos : ¬ (-i = 0) := by omega
-    have e : (-i) = (((-i).toNat : Nat) : Int) := by omega
-    have hlt : (-i).toNat < 10 ^ 20 := by
-      have : (-i).toNat ≤ 9223372036854775807 := by omega
-      exact Nat.lt_of_le_of_lt this (by decide)
-    simp only [nthPrint, hneg, ↓reduceIte, hw, hpos, fmtInt_neg i hneg]
-    rw [e, nthDigits_nat 20 _ [] (by omega) hlt]
-    simp
-    congr 1; omega
-  · have hnn : 0 ≤ i := by omega
-    by_cases hz : i = 0
-    · subst hz
-      decide
-    · have e : i = ((i.toNat : Nat) : Int) := by omega
-      have hlt : i.toNat < 10 ^ 20 := by
-        have : i.toNat ≤ 9223372036854775807 := by omega
-        exact Nat.lt_of_le_of_lt this (by decide)
-      simp only [nthPrint, hneg, ↓reduceIte, hz, fmtInt_nonneg i hnn]
-      rw [e, nthDigits_nat 20 _ [] (by omega) hlt]
-      simp
-      congr 1; omega
-
+/-- `Nth.Append` is `AppendInt` between brackets (since 4af356a, for every index) -/
+theorem nthPrint_eq (i : Int) : nthPrint i = 91 :: (fmtInt i ++ [93]) := rfl
 
 /-! ## what follows a fragment, and token children -/
 
@@ -167,11 +111,11 @@ theorem isDigit_range {d : UInt8} (h : isDigit d = true) : 48 ≤ d.toNat ∧ d.
 
 /-- the first byte of a decimal integer is none of the bytes `afterBracket` and `readSlice` test for first -/
 theorem numHead_ne {d : UInt8} (h : d = 45 ∨ isDigit d = true) :
-    d ≠ 32 ∧ d ≠ 42 ∧ d ≠ 39 ∧ d ≠ 34 ∧ d ≠ 58 ∧ d ≠ 63 ∧ d ≠ 40 ∧ d ≠ 93 ∧ d ≠ 44 := by
+    d ≠ 32 ∧ d ≠ 42 ∧ d ≠ 39 ∧ d ≠ 34 ∧ d ≠ 58 ∧ d ≠ 63 ∧ d ≠ 40 ∧ d ≠ 93 ∧ d ≠ 44 ∧ d ≠ 46 := by
   rcases h with h | h
   · subst h; decide
   · have := isDigit_range h
-    refine ⟨?_, ?_, ?_, ?_, ?_, ?_, ?_, ?_, ?_⟩ <;> (intro e; subst e; simp at this)
+    refine ⟨?_, ?_, ?_, ?_, ?_, ?_, ?_, ?_, ?_, ?_⟩ <;> (intro e; subst e; simp at this)
 
 theorem numHead_cond {d : UInt8} (h : d = 45 ∨ isDigit d = true) : (d = 45 || isDigit d) = true := by
   rcases h with h | h <;> simp [h]
@@ -183,22 +127,26 @@ theorem afterBracket_int (pf : P (List Item)) (i : Int) (hi : inInt64 i = true) 
   have hn := numHead_ne hd
   rw [hf]
   simp only [List.cons_append, afterBracket, skipSpace_cons _ hn.1, hn.2.1, hn.2.2.1, hn.2.2.2.1, hn.2.2.2.2.1,
-    hn.2.2.2.2.2.1, hn.2.2.2.2.2.2.1, ↓reduceIte, Bool.or_self, Bool.false_eq_true, numHead_cond hd, hread,
-    decide_false]
+    hn.2.2.2.2.2.1, hn.2.2.2.2.2.2.1, hn.2.2.2.2.2.2.2.2.2, ↓reduceIte, Bool.or_self, Bool.false_eq_true,
+    numHead_cond hd, hread, decide_false]
 
 theorem afterBracket_nth (pf : P (List Item)) (i : Int) (hi : inInt64 i = true) (tail : Bytes) :
     afterBracket pf (fmtInt i ++ 93 :: tail) = some (.nth i, tail) := by
   rw [afterBracket_int pf i hi 93 (by decide)]
   simp [afterInt, afterIntB]
 
+theorem afterBracket_descent (pf : P (List Item)) (tail : Bytes) :
+    afterBracket pf (46 :: 46 :: 93 :: tail) = some (.descent, tail) := by
+  simp [afterBracket, skipSpace, skipSpaceAux]
+
 theorem afterBracket_wild (pf : P (List Item)) (tail : Bytes) :
     afterBracket pf (42 :: 93 :: tail) = some (.wild true, tail) := by
   simp [afterBracket, skipSpace, skipSpaceAux]
 
-theorem afterBracket_child (pf : P (List Item)) (k tail : Bytes) (hu : utf8Ok k = true) :
+theorem afterBracket_child (pf : P (List Item)) (k tail : Bytes) :
     afterBracket pf (appendString k 39 ++ 93 :: tail) = some (.child k, tail) := by
   have h := readStr_body k.length k (93 :: tail) (Nat.le_refl _)
-  rw [sanitize_valid k.length k (Nat.le_refl _) hu] at h
+  rw [rebuild_id k.length k (Nat.le_refl _)] at h
   have e : appendString k 39 ++ 93 :: tail = 39 :: (appendStrBody 39 k.length k ++ 39 :: 93 :: tail) := by
     simp [appendString]
   rw [e]
@@ -279,13 +227,12 @@ theorem afterBracket_slice (pf : P (List Item)) (ns : List Int) (hns : ns.all in
 /-! unions -/
 
 def UMem.good : UMem → Prop
-  | .key s => ∀ c ∈ s, c ≠ 39 ∧ c ≠ 92
+  | .key _ => True
   | .idx i => inInt64 i = true
 
-theorem readStr_raw (s rest : Bytes) (hs : ∀ c ∈ s, c ≠ 39 ∧ c ≠ 92) :
-    readStr 39 (s ++ 39 :: rest) = some (s, rest) := by
-  rw [readStr_plain s _ hs (by simp)]
-  simp [readStr, appFst]
+/-- a union member is written like a child key (since 4af356a) and read back whatever its bytes -/
+theorem readStr_key (s rest : Bytes) :
+    ∃ t, appendString s 39 ++ rest = 39 :: t ∧ readStr 39 t = some (s, rest) := readStr_appendString s rest
 
 theorem readUnionRest_close (F : Nat) (tail : Bytes) : readUnionRest (F + 1) 93 tail = some ([], tail) := by
   simp [readUnionRest]
@@ -296,8 +243,9 @@ theorem readUnionRest_step (m : UMem) (hm : m.good) (c : UInt8) (hc : c = 44 ∨
   have hcd : isDigit c = false := by rcases hc with h | h <;> subst h <;> decide
   cases m with
   | key s =>
-    have := readStr_raw s (c :: rest) hm
-    simp [readUnionRest, umemPrint, skipSpace, skipSpaceAux, this, hc32]
+    obtain ⟨t, h1, h2⟩ := readStr_key s (c :: rest)
+    simp only [umemPrint, h1]
+    simp [readUnionRest, skipSpace, skipSpaceAux, h2, hc32]
   | idx i =>
     obtain ⟨d, ds, hf, hd, hread⟩ := readInt_fmtInt i hm c rest hcd
     have hn := numHead_ne hd
@@ -335,7 +283,7 @@ theorem fmtInt_ne_nil (i : Int) : fmtInt i ≠ [] := by
 
 theorem umemPrint_ne_nil (m : UMem) : umemPrint m ≠ [] := by
   cases m with
-  | key s => simp [umemPrint]
+  | key s => simp [umemPrint, appendString]
   | idx i => exact fmtInt_ne_nil i
 
 theorem umemsPrint_length : ∀ ms : List UMem, ms.length ≤ (umemsPrint ms).length := by
@@ -379,9 +327,9 @@ theorem afterBracket_union (pf : P (List Item)) (ms : List UMem) (h2 : 2 ≤ ms.
     · have hrest := readUnion_members m (m2 :: r) (by simp) (fun x hx => hg x (by simp [hx])) tail
       cases m with
       | key s =>
-        have hs : ∀ c ∈ s, c ≠ 39 ∧ c ≠ 92 := hg (.key s) (by simp)
-        have := readStr_raw s (44 :: (umemsPrint (m2 :: r) ++ 93 :: tail)) hs
-        simp [umemPrint, afterBracket, skipSpace, skipSpaceAux, this, hrest]
+        obtain ⟨t, h1, h2⟩ := readStr_key s (44 :: (umemsPrint (m2 :: r) ++ 93 :: tail))
+        simp only [umemPrint, h1]
+        simp [afterBracket, skipSpace, skipSpaceAux, h2, hrest]
       | idx i =>
         have hi : inInt64 i = true := hg (.idx i) (by simp)
         simp only [umemPrint]
